@@ -626,3 +626,88 @@ def hostile_count_family(T):
                 for _ in range(3):
                     w.ch('3'); w.eol()
                 yield mode, bytes(w.out), 'hostile-count-%s' % cons
+
+
+def _plain_writer(binary, big):
+    import random as _r
+    w = W(_r.Random(1), binary, big)
+    w._sep = (lambda w=w: (w.out.extend(b' ') if not w.binary and not w.fresh else None, setattr(w, 'fresh', False))[1])
+    w.eol = (lambda w=w: (w.out.extend(b'\n') if not w.binary else None, setattr(w, 'fresh', True))[1])
+    return w
+
+
+def _header(binary, big, nv, nc, no, nl, nf, ce):
+    l6 = ' 0 %d' % nf + ((' 2 1' if big else ' 1 1') if binary else ' 0 1')
+    lines = [('b' if binary else 'g') + '3 1 1 0', ' %d %d %d 0 0 %d' % (nv, nc, no, nl), ' 0 0', ' 0 0', ' 0 0 0', l6,
+             ' 0 0 0 0 0', ' 0 0', ' 0 0', ' ' + ' '.join(str(c) for c in ce)]
+    return ('\n'.join(lines) + '\n').encode()
+
+
+def cumulative_header_family():
+    """headers whose counts are individually acceptable but overflow int together (index space of variables +
+    common expressions; algebraic + logical constraints), and their just-acceptable neighbours.
+    yields (mode, bytes, tag)"""
+    P30 = 1 << 30
+    combos = []
+    # (nv, nc, nl, ce)
+    for ce in ([P30 - 1, P30 - 1, 0, 0, 0], [P30 - 1, 0, 0, 0, P30 - 1], [0, P30, 0, P30, 0], [P30, P30, 0, 0, 0],
+               [P30 // 2, P30 // 2, P30 // 2, 0, 0], [P30 // 2, P30 // 2, P30 // 2, P30 // 2, 0], [1, 1, 1, 1, P30 - 4],
+               [P30 - 1, 0, 0, 0, 0], [0, 0, P30 - 1, 0, 1], [0, 0, 0, 0, P30]):
+        combos.append((P30, 1, 0, ce))
+    for nv, ce in ((INT_MAX, [1, 0, 0, 0, 0]), (INT_MAX, [0, 0, 0, 0, 1]), (INT_MAX - 1, [1, 0, 0, 0, 0]), (INT_MAX - 1, [1, 1, 0, 0, 0]),
+                   (INT_MAX - 2, [1, 0, 1, 0, 1]), (INT_MAX - 2, [1, 0, 1, 0, 0]), (INT_MAX, [0, 0, 0, 0, 0]), (INT_MAX - 5, [1, 1, 1, 1, 1]),
+                   (INT_MAX - 5, [1, 1, 1, 1, 2])):
+        combos.append((nv, 1, 0, ce))
+    for nc, nl in ((P30, P30), (INT_MAX, 1), (INT_MAX - 1, 1), (INT_MAX - 1, 2), (1, INT_MAX), (P30 - 1, P30), (P30, P30 - 1)):
+        combos.append((2, nc, nl, [0, 0, 0, 0, 0]))
+    for mode in ('text', 'bin', 'binswap'):
+        binary, big = mode != 'text', mode == 'binswap'
+        for nv, nc, nl, ce in combos:
+            total = nv + sum(ce)
+            for body in range(4):
+                w = _plain_writer(binary, big)
+                w.raw(_header(binary, big, nv, nc, 0, nl, 0, ce))
+                if body == 1:
+                    w.ch('C'); w.uint(0); w.eol(); w.ch('v'); w.uint(min(total - 1, INT_MAX)); w.eol()
+                elif body == 2:
+                    w.ch('C'); w.uint(0); w.eol(); w.ch('v'); w.uint(INT_MAX); w.eol()
+                elif body == 3:
+                    w.ch('S'); w.uint(1); w.uint(1); w.name(b'sfx'); w.eol(); w.uint(min(nc + nl - 1, INT_MAX)); w.int32(1); w.eol()
+                yield mode, bytes(w.out), 'cumulative-header'
+
+
+def suffix_all_items_family():
+    """small problems with 1..3 objectives and logical constraints; integer and double suffixes of all four
+    kinds with a value for EVERY item (including the last variable / logical constraint / objective)"""
+    nv, nc, nl = 3, 2, 1
+    for mode in ('text', 'bin', 'binswap'):
+        binary, big = mode != 'text', mode == 'binswap'
+        for no in (1, 2, 3):
+            for with_objs in (False, True):
+                for order in (0, 1):
+                    w = _plain_writer(binary, big)
+                    w.raw(_header(binary, big, nv, nc, no, nl, 0, [0, 0, 0, 0, 0]))
+                    def objs():
+                        for i in range(no):
+                            w.ch('O'); w.uint(i); w.uint(i % 2); w.eol(); w.ch('n'); w.dbl(float(i)); w.eol()
+                        for i in range(no):
+                            w.ch('G'); w.uint(i); w.uint(1); w.eol(); w.uint(i % nv); w.dbl(2.0); w.eol()
+                    def sufs():
+                        k = 0
+                        for kind in (2, 0, 1, 3):
+                            items = [nv, nc + nl, no, 1][kind]
+                            for fl in (0, 4):
+                                k += 1
+                                w.ch('S'); w.uint(kind | fl); w.uint(items); w.name(b'sf%d' % k); w.eol()
+                                for idx in (range(items) if order == 0 else reversed(range(items))):
+                                    w.uint(idx)
+                                    (w.dbl(1.5) if fl else w.int32(7 + idx)); w.eol()
+                    if with_objs and order == 0:
+                        objs()
+                    sufs()
+                    if with_objs and order == 1:
+                        objs()
+                    w.ch('b'); w.eol()
+                    for _ in range(nv):
+                        w.ch('3'); w.eol()
+                    yield mode, bytes(w.out), 'suffix-all-items'
